@@ -144,11 +144,67 @@ def pval_of(v):
   return ['other', S(str(v))]
 
 def params_of(m):
+  """the EFFECTIVE construct arguments of an instance, derived independently of rt.Component._gen_parameters:
+  the construct signature bound to the constructor arguments, overlaid with the arguments given through
+  top.set_param('top.<path>.construct', k=v) (read from the instance's parameter tree), defaults applied"""
   sig = inspect.signature(type(m).construct)
   names = list(sig.parameters)[1:]
-  ba = sig.bind(m, *m._dsl.args, **m._dsl.kwargs)
+  kwargs = dict(m._dsl.kwargs)
+  tree = getattr(m._dsl, 'param_tree', None)
+  if tree is not None and tree.leaf and 'construct' in tree.leaf: kwargs.update(tree.leaf['construct'])
+  ba = sig.bind(m, *m._dsl.args, **kwargs)
   ba.apply_defaults()
   return [(n, ba.arguments[n]) for n in names]
+
+def py_struct_name(cls):
+  """name of a bitstruct type from its own field table (restatement of Struct.get_name, independent of any cache)"""
+  def full(t):
+    if isinstance(t, list):
+      dims, sub = [], t
+      while isinstance(sub, list):
+        dims.append(len(sub)); sub = sub[0]
+      return full(sub) + 'x' + 'x'.join(map(str, dims))
+    if is_bitstruct_class(t): return t.__name__ + '__' + fstr(t)
+    return str(t.nbits)
+  def fstr(t): return '__'.join(f'{k}_{full(v)}' for k, v in t.__bitstruct_fields__.items())
+  f = full(cls)
+  return f if len(f) < 64 else cls.__name__ + '__' + blake(fstr(cls))
+
+def identity(m):
+  """what a module name is allowed to depend on: the class NAME and the str() images of the effective parameters.
+  Two instances with different identities are different components for the naming scheme and must never meet on
+  one module name; two instances with equal identities (two classes sharing __name__, 1 vs '1') can only be told
+  apart by their bodies, and the translator refusing such a design is the accepted behaviour."""
+  def image(v):
+    if isinstance(v, type): return py_struct_name(v) if is_bitstruct_class(v) else v.__name__
+    return str(v)
+  return (type(m).__name__, tuple((k, image(v)) for k, v in params_of(m)))
+
+def type_width(T):
+  if isinstance(T, int): return T
+  if isinstance(T, list): return len(T) * type_width(T[0])
+  if is_bitstruct_class(T): return sum(type_width(t) for t in T.__bitstruct_fields__.values())
+  return T.nbits
+
+def port_table(obj, prefix='', dims=()):
+  """SystemVerilog port name -> (packed width, [unpacked dims]) expected from the instance itself"""
+  out = {}
+  for k, v in obj.__dict__.items():
+    if not isinstance(k, str) or k.startswith('_'): continue
+    shape, f = [], v
+    while isinstance(f, list) and f:
+      shape.append(len(f)); f = f[0]
+    if isinstance(f, (InPort, OutPort)): out[prefix + k] = (type_width(f._dsl.Type), list(dims) + shape)
+    elif isinstance(f, Interface): out.update(port_table(f, prefix + k + '__', tuple(dims) + tuple(shape)))
+  return out
+
+def mangle(m):
+  return repr(m).replace('.', '_').replace('[', '_').replace(']', '_').replace(':', '_')
+
+def code_of(text, owner_path):
+  """module text without comment / blank lines and with the instance path removed from lambda block labels"""
+  code = [l.rstrip() for l in text.split('\n') if l.strip() and not l.lstrip().startswith('//')]
+  return '\n'.join(code).replace('_lambda__' + owner_path + '_', '_lambda__s_')
 
 def standalone_key(m):
   # identity for classes (two different classes may print alike), type + repr for values
@@ -199,7 +255,8 @@ class DesignRun:
 
 def inproc_translate(ck, d, backend, rep):
   mod = importlib.import_module(d['module'])
-  return c13_worker.translate(mod.make_top, backend, os.path.join(ck.workdir, 'out', 'inproc', str(d['uid']), backend))
+  return c13_worker.translate(mod.make_top, backend, os.path.join(ck.workdir, 'out', 'inproc', str(d['uid']), backend),
+                              getattr(mod, 'pre_translate', None))
 
 def instance_bodies(top, P):
   """the text rtlir_tr_component gives for EVERY instance (what components[name] would hold had it been first)"""
@@ -221,9 +278,10 @@ def standalone(ck, m, backend):
   """text `module .. endmodule` of a fresh instance of m's class with m's arguments, translated as a top of its own"""
   key = (backend,) + standalone_key(m)
   if key not in _standalone_cache:
-    cls, args, kwargs = type(m), m._dsl.args, m._dsl.kwargs
+    cls, kwargs = type(m), dict(params_of(m))
     try:
-      _, text = c13_worker.translate(lambda: cls(*args, **kwargs), backend, os.path.join(ck.workdir, 'out', 'standalone', backend))
+      _, text = c13_worker.translate(lambda: cls(**kwargs), backend, os.path.join(ck.workdir, 'out', 'standalone', backend),
+                                     getattr(sys.modules.get(cls.__module__), 'pre_translate', None))
       tab = c13_scan.scan(text)
       _standalone_cache[key] = tab['modules'][-1]['text']
     except Exception as e:
@@ -231,25 +289,45 @@ def standalone(ck, m, backend):
   return _standalone_cache[key]
 
 def refused_design(ck, d, backend, case, exc):
-  """The translator refused a probe design (this is what the repaired translate_component does with an aliasing
-  design). Tie it to the model of the repair: names from the model, bodies = standalone translations of the children;
-  translateChecked must refuse as well, and the direct oracle must see a real alias."""
+  """The translator refused a design because two instances met on one module name ("translate to different hardware
+  but to the same module name").
+  Direct oracle: the refusal is acceptable only if the design really contains two instances that the naming scheme
+  cannot tell apart -- equal identity (class NAME + str() images of the EFFECTIVE parameters) -- with different
+  hardware (different standalone translations). A design in which all such pairs differ in class name or in a
+  parameter is legal; refusing it means two different components collided on a module name.
+  Model: names from Model/Names.lean on the effective parameters, bodies = standalone translations of the children;
+  translateChecked must refuse exactly when the translator does."""
   mod = importlib.import_module(d['module'])
   top = mod.make_top(); top.elaborate()
   comps = all_components(top)
   reps = ask_hashed(ck, [lambda h, m=m: leanio.line('names', 'uniq', h, S(type(m).__name__), [[S(k), pval_of(v)] for k, v in params_of(m)]) for m in comps])
   name = {m: unS(r[UNIQ]) for m, r in zip(comps, reps)}
   stand = {m: (f'<<top {d["uid"]}>>' if m is top else standalone(ck, m, backend)) for m in comps}
+  ident = {m: identity(m) for m in comps}
   ids = {}
   def tree(m):
     return [S(repr(m)), S(name[m]), ids.setdefault(stand[m], len(ids)), [tree(x) for _, insts, _ in members(m)[2] for x in insts]]
   rep = leanio.parse_sexp(ck.drv('names').batch([leanio.line('names', 'walk', tree(top))])[0])
-  alias = any(name[a] == name[b] and stand[a] != stand[b] for a in comps for b in comps)
-  ck.hist('alias-outcome', f'{d.get("stream")}:refused-by-translator')
+  undistinguishable = [(a, b) for i, a in enumerate(comps) for b in comps[i + 1:] if ident[a] == ident[b] and stand[a] != stand[b]]
+  ck.hist('alias-outcome', f'{d.get("stream") or d["kind"]}:refused-by-translator')
   ck.count({'design': str(d['uid']), 'src': hashlib.sha256(d['source'].encode()).hexdigest()[:16], 'backend': backend, 'refused': True})
+  msg = str(exc)
+  mm = re.search(r'(\S+) \(([^)]*)\) and\s+(\S+) \(([^)]*)\) translate to\s+different hardware but to the same module name (\S+?)!', msg)
+  if not undistinguishable:
+    by_repr = {repr(m): m for m in comps}
+    pair = [by_repr.get(mm.group(1)), by_repr.get(mm.group(3))] if mm else [None, None]
+    ck.violation('legal-design-refused', {'finding': 'distinct-components-one-module-name'}, case,
+                 {'error': f'{type(exc).__name__}: {msg.strip()[:400]}',
+                  'module_name': mm.group(5) if mm else None,
+                  'colliding_instances': [{'instance': repr(x), 'class': f'{type(x).__module__}.{type(x).__qualname__}',
+                                           'effective_parameters': [[k, type(v).__name__, str(v)] for k, v in params_of(x)]}
+                                          for x in pair if x is not None],
+                  'oracle': 'no two instances of this design have the same class name and the same parameter images, so no two '
+                            'of them may share a module name: components that differ in class or parameters never collide'})
+  alias = any(name[a] == name[b] and stand[a] != stand[b] for a in comps for b in comps)
   if (rep[3] == 'err') != alias or not alias:
     ck.disagreement('translateChecked≈translator refusing a design', case, {'checked': rep[3], 'name': unS(rep[4])},
-                    {'refused': f'{type(exc).__name__}: {str(exc)[:300]}', 'alias_by_direct_oracle': alias})
+                    {'refused': f'{type(exc).__name__}: {msg[:300]}', 'alias_by_direct_oracle': alias})
 
 def check_design(ck, d, texts_by_run):
   """texts_by_run: {run label: {backend: [text, text]}} from the fresh processes; runs the in-process translation,
@@ -258,7 +336,7 @@ def check_design(ck, d, texts_by_run):
               'extra_modules': d.get('extra_modules', [])}
   stream = d.get('stream')
   finding = FINDING.get(stream)
-  for backend in c13_worker.BACKENDS:
+  for backend in d.get('backends') or c13_worker.BACKENDS:
     P = c13_worker.backend_pass(backend)
     case = dict(src_case, backend=backend)
     # ---- translate here, twice
@@ -268,9 +346,10 @@ def check_design(ck, d, texts_by_run):
     except Exception as e:
       ck.hist('translation-rejected', f'{backend}:{type(e).__name__}')
       ck.rejected.append({'design': str(d['uid']), 'backend': backend, 'error': f'{type(e).__name__}: {str(e)[:300]}'})
-      if d['kind'] != 'probe':
+      if 'same module name' in str(e):
+        refused_design(ck, d, backend, case, e)
+      elif d['kind'] != 'probe':
         raise InfraError(f'design {d["uid"]} is not translatable by {backend}: {type(e).__name__}: {str(e)[:400]}\n{d["source"][:3000]}')
-      refused_design(ck, d, backend, case, e)
       continue
     # ---- determinism (direct oracle): byte equality
     runs = [('inproc-1', text), ('inproc-2', text2)]
@@ -305,6 +384,13 @@ def check_design(ck, d, texts_by_run):
     ck.model_reqs.append((lambda h, tab=tab: leanio.line('names', 'wf', [S(x) for x in tab['typedefs']],
                             [[S(m['name']), [S(x) for x in m['ids']], [[S(a), S(b)] for a, b in m['insts']]] for m in tab['modules']]),
                           ('wf', case, wf_bad)))
+    if not d.get('model', True):
+      # the text contains foreign Verilog (a placeholder's pickled source): determinism and the table oracle only
+      ck.count({'design': str(d['uid']), 'src': hashlib.sha256(d['source'].encode()).hexdigest()[:16], 'backend': backend},
+               nontrivial=len(tab['modules']) >= 3)
+      ck.hist('alias-outcome', f'{stream or d["kind"]}:{"table-bad" if wf_bad else "clean"}')
+      for f in d['features']: ck.hist('feature', f)
+      continue
     # ---- the instance tree, as the model sees it
     tr, bodies = instance_bodies(top, P)
     comps = all_components(top)
@@ -359,6 +445,43 @@ def check_design(ck, d, texts_by_run):
       n = real_name[m]
       if n in tr.hierarchy.components and bodies[m] == tr.hierarchy.components[n] and n not in first_of: first_of[n] = m
     scanned = {mm['name']: mm for mm in tab['modules']}
+    # ---- every instance is instantiated as a module that IS that instance (direct oracle):
+    #      the module named at the instantiation site has the instance's ports (names, widths, dims; SV) and its code is
+    #      the instance's own standalone translation (comments and the instance path in lambda labels aside)
+    owner_path = {n: mangle(m) for n, m in first_of.items()}
+    n_bad = 0
+    for p in comps:
+      pm = scanned.get(real_name[p])
+      if pm is None: continue
+      site = dict((i, mod_) for mod_, i in pm['insts'])
+      for k, insts, dims in members(p)[2]:
+        for idx, c in zip(itertools.product(*[range(x) for x in dims]), insts):
+          iname = k + ''.join(f'__{i}' for i in idx)
+          mod_ = site.get(iname)
+          if mod_ is None or mod_ not in scanned: continue       # missing / undefined: the table oracle reports it
+          em = scanned[mod_]
+          problem = None
+          if backend == 'sv':
+            want, got = port_table(c), em['portinfo']
+            diff = []
+            for x in sorted(set(want) | set(got)):
+              w, g = want.get(x), got.get(x)
+              if g is not None and g[0] is None: continue            # a width the scanner does not understand
+              if w is None or g is None or (w[0], list(w[1])) != (g[0], list(g[1])): diff.append(x)
+            if diff:
+              problem = {'what': 'ports of the instantiated module differ from the ports of the instance',
+                         'port': diff[0], 'instance_has': want.get(diff[0]), 'module_has': got.get(diff[0])}
+          if problem is None and not stand[c].startswith('<<') and code_of(em['text'], owner_path.get(mod_, 's')) != code_of(stand[c], 's'):
+            la, lb = code_of(em['text'], owner_path.get(mod_, 's')).split('\n'), code_of(stand[c], 's').split('\n')
+            j = next((i for i, (x, y) in enumerate(zip(la, lb)) if x != y), min(len(la), len(lb)))
+            problem = {'what': 'code of the instantiated module differs from the standalone translation of the instance',
+                       'module_line': la[j] if j < len(la) else None, 'standalone_line': lb[j] if j < len(lb) else None}
+          if problem and n_bad < 2:
+            n_bad += 1
+            ck.violation('instance-gets-other-hardware', {'finding': finding or 'unlabelled'}, case,
+                         dict(problem, instance=repr(c), instantiated_as=mod_,
+                              effective_parameters=[[k2, type(v).__name__, str(v)] for k2, v in params_of(c)],
+                              oracle='the module instantiated for an instance must be the translation of that very instance'))
     for n, m in first_of.items():
       if n not in scanned: continue
       ports, ifcs, kids = members(m)
@@ -435,7 +558,7 @@ def run_workers(ck, designs, designs_dir, seeds):
   """one fresh process per hash seed; each translates all designs (in its own shuffled order), twice, both backends"""
   procs = []
   for seed in seeds:
-    order = [{'module': d['module'], 'uid': str(d['uid'])} for d in designs]
+    order = [{'module': d['module'], 'uid': str(d['uid']), 'backends': d.get('backends')} for d in designs]
     ck.rng.shuffle(order)
     jobf = os.path.join(ck.workdir, f'job{seed}.json')
     outf = os.path.join(ck.workdir, f'out{seed}.json')
@@ -559,7 +682,7 @@ def names_stream(ck, n_cases):
       ck.count(dict(case, stream='names'), nontrivial=bool(ps))
       ck.hist('names:flavour', flavour); ck.hist('names:nparams', len(ps)); ck.hist('names:hashed', int(real_uniq != real_full))
       # direct oracle 1: the module name is an identifier
-      if not c13_scan.ID_RE.match(real_uniq) or real_uniq in ck.reserved:
+      if not c13_scan.is_id(real_uniq) or real_uniq in ck.reserved:
         ck.hist('names:illegal', 'labelled-nonid' if nonid else 'unlabelled')
         ck.violation('illegal-identifier', {'finding': 'illegal-module-name' if nonid else 'illegal-module-name-unlabelled'},
                      dict(case, stream='names'), {'module_name': real_uniq, 'oracle': 'module names match [A-Za-z_][A-Za-z0-9_$]* and are not reserved'})
@@ -685,7 +808,7 @@ def replay(ck, data):
     rep = ask_hashed(ck, [lambda h: leanio.line('names', 'uniq', h, S(case['cls']), [[S(k), pval_of(v)] for k, v in ps])])[0]
     print('implementation:', real)
     print('model         :', unS(rep[UNIQ]))
-    legal = bool(c13_scan.ID_RE.match(real)) and real not in ck.reserved
+    legal = c13_scan.is_id(real) and real not in ck.reserved
     print('legal identifier:', legal)
     return 0 if (legal and real == unS(rep[UNIQ])) else 1
   d = {'uid': 'replay', 'kind': case.get('kind', 'probe'), 'stream': case.get('stream'), 'module': 'c13_replay',
